@@ -351,12 +351,10 @@ func (p *Plan) ResolvePath(root *Source, path string) *Source {
 		if name == "" || strings.ContainsAny(name, "()") {
 			return nil
 		}
-		base, isPtr := deref(cur.Type)
-		var pkg *types.Package
-		if n, ok := base.(*types.Named); ok {
-			pkg = n.Obj().Pkg()
-		}
-		obj, _, _ := types.LookupFieldOrMethod(cur.Type, cur.Addr, pkg, name)
+		_, isPtr := deref(cur.Type)
+		// the selector is written in the home package: an unexported name is found iff the home package declared it
+		// (also inside an anonymous struct, which has no package of its own)
+		obj, _, _ := types.LookupFieldOrMethod(cur.Type, cur.Addr, p.Home, name)
 		if obj == nil {
 			return nil
 		}
